@@ -67,6 +67,7 @@ func gen(t *rapid.T) sw.Scenario {
 			}
 		}
 	}
+	sc.GenVia(t)
 	return sc
 }
 
@@ -74,7 +75,7 @@ func run(sc sw.Scenario, dir string) world.Verdict {
 	return sw.InBubble(func() world.Verdict {
 		root, _ := os.MkdirTemp(dir, "c06")
 		defer os.RemoveAll(root)
-		w, err := sw.New(world.NodeOpts{ChainID: "c06-chain", InitialHeight: sc.InitialHeight, RootDir: root, MempoolTTL: sc.MempoolTTL})
+		w, err := sw.New(world.NodeOpts{ChainID: "c06-chain", InitialHeight: sc.InitialHeight, RootDir: root, MempoolTTL: sc.MempoolTTL, ViaDAClient: sc.ViaClient, DAClientLimit: sc.ClientLimit, Prometheus: sc.Prometheus})
 		if err != nil {
 			return world.Fail("C06/start", "NewManager failed: %v", err)
 		}
@@ -95,6 +96,9 @@ func run(sc sw.Scenario, dir string) world.Verdict {
 				}
 			}
 			labels["op:"+o.Kind] = true
+			if sc.ViaClient {
+				labels["through-the-real-da-client"] = true
+			}
 			if p := w.CheckC06(fmt.Sprintf("after op %d (%s)", i, o.Kind)); p != nil {
 				return world.Fail("C06/"+p.Sig, "%s", p.Msg)
 			}
